@@ -179,7 +179,8 @@ def table_cases(draw, tier):
     # cut-off: free, or right at a site-site distance (guard band decides)
     D = oracle.min_image_dist(sites['frac'], sites['frac'], M)
     dd = sorted(set(np.round(D[np.triu_indices(S, 1)], 6).tolist()))
-    cutoff = draw(st.one_of(st.floats(0.3, 5.0), st.sampled_from(dd).map(lambda x: x + 0.05), st.sampled_from(dd).map(lambda x: max(0.05, x - 0.05))))
+    cutoff = draw(st.one_of(st.floats(0.3, 5.0), st.sampled_from(dd).map(lambda x: x + 0.05), st.sampled_from(dd).map(lambda x: max(0.05, x - 0.05)),
+                            st.sampled_from(dd).map(lambda x: x * (1 + 2e-8)), st.sampled_from(dd).map(lambda x: x * (1 - 2e-8))))  # ... and a hair beside a site-site distance (decisive in double precision)
     order = draw(st.permutations(list(range(len(rows)))))
     index_mode = draw(st.sampled_from(['range', 'range', 'shifted', 'reversed', 'sorted', 'sorted-shifted', 'sorted-reversed']))
     return {'index_mode': index_mode, 'column_order': draw(st.one_of(st.none(), st.none(), st.permutations([0, 1, 2, 3, 4]))), 'lattice': lat, 'sites': {'frac': sites['frac'], 'labels': sites['labels']}, 'rows': [rows[k] for k in order], 'window': window, 'cutoff': float(cutoff)}
